@@ -61,8 +61,7 @@ impl MessageReader<'_> {
                                 debug!("ignoring trailing packet: {tag:?}");
                                 // consume the trailing packet, to ensure we fully process all data
 
-                                let mut out = Vec::new();
-                                packet.read_to_end(&mut out)?;
+                                io::copy(&mut packet, &mut io::sink())?;
                             }
                             _ => {
                                 return Err(io::Error::new(
